@@ -265,7 +265,9 @@ var propHTML = hx.Prop[HCase]{
 	Rule: "HTML from a grammar: nested/unterminated/mis-nested tags over benign and dangerous elements (script, style, iframe, frames, object, " +
 		"embed, form and controls, svg/math/noscript/select foreign-content and raw-text contexts, mixed case), attributes in all quoting " +
 		"styles incl. on* handlers, URL attributes with obfuscated javascript: (case, control chars, tab/newline, entities), style values " +
-		"from a CSS grammar (allowed/disallowed/escaped property names, comments, strings with ';', blocks, at-rules, unterminated); the " +
+		"from a CSS grammar (allowed/disallowed/escaped property names, comments, strings with ';', blocks, at-rules, unterminated); a " +
+		"quarter of the inputs additionally get a token the sanitiser removes (comment, bogus comment, empty script/style/iframe, unknown tag, " +
+		"NUL) spliced in at a random offset, mostly right after a '<'; the " +
 		"output of sanitize.HTML is re-parsed with x/net/html's tokenizer AND tree builder and must have no forbidden element, no on* " +
 		"attribute, no javascript: URL, and style declarations (independent CSS Syntax L3 declaration-list parser) only on the allow-list; " +
 		"nil error, no panic; non-trivial = input contains a dangerous construct",
@@ -277,6 +279,23 @@ var propHTML = hx.Prop[HCase]{
 			sb.WriteString(nodeGen(2).Draw(t, "node"))
 		}
 		c := HCase{HTML: sb.String()}
+		if rapid.IntRange(0, 3).Draw(t, "splice") == 0 && len(c.HTML) > 0 {
+			// something the sanitiser removes, put in the middle of something else: what is left
+			// when it is gone must not close up into markup that was never judged
+			var afterLT []int
+			for i := 1; i <= len(c.HTML); i++ {
+				if c.HTML[i-1] == '<' {
+					afterLT = append(afterLT, i)
+				}
+			}
+			pos := rapid.IntRange(0, len(c.HTML)).Draw(t, "splicepos")
+			if len(afterLT) > 0 && rapid.IntRange(0, 2).Draw(t, "spliceafterlt") > 0 {
+				pos = afterLT[rapid.IntRange(0, len(afterLT)-1).Draw(t, "splicelt")]
+			}
+			tok := rapid.SampledFrom([]string{"<!-- -->", "<!---->", "<!x>", "<?x>", "<!-- c -->", "<script></script>", "<style></style>", "<x>", "</x>",
+				"<iframe></iframe>", "\x00", "<![CDATA[]]>", "<script>", "</script>"}).Draw(t, "splicetok")
+			c.HTML = c.HTML[:pos] + tok + c.HTML[pos:]
+		}
 		if rapid.IntRange(0, 199).Draw(t, "huge") == 0 {
 			c.Huge = fmt.Sprintf("%s:%d:%d", rapid.SampledFrom([]string{"text", "comment", "attr", "openattr", "script", "href"}).Draw(t, "hkind"),
 				rapid.SampledFrom([]int{4000, 32768, 65536, 70000, 300000}).Draw(t, "hsize"), rapid.SampledFrom([]int{0, 0, 1 << 30}).Draw(t, "hpos"))
